@@ -38,6 +38,8 @@ func (w *World) lifeExec(l Line) (string, bool) {
 		return "r=" + regErrClass(err), true
 	case "lifestate":
 		return w.lifeState(), true
+	case "shutdownstate":
+		return w.shutdownState(), true
 	case "probe":
 		return w.probe(l), true
 	}
@@ -124,4 +126,49 @@ func (w *World) probe(l Line) string {
 		parts = append(parts, fmt.Sprintf("%s=%d", id, got))
 	}
 	return "r=ok " + strings.Join(parts, " ")
+}
+
+var otherCounter int
+
+// shutdownState reports, after a shutdown, how many feed goroutines are still running and whether an unrelated bucket
+// can still be opened, written and deleted (no process-wide lock left held).
+func (w *World) shutdownState() string {
+	var af int32
+	for i := 0; i < 100; i++ {
+		af = rosmar.VerifActiveFeeds()
+		if af == 0 {
+			break
+		}
+		time.Sleep(10 * time.Millisecond)
+	}
+	otherCounter++
+	name := fmt.Sprintf("%s_other%d", w.name, otherCounter)
+	ch := make(chan string, 1)
+	go func() {
+		defer func() {
+			if r := recover(); r != nil {
+				ch <- "panic"
+			}
+		}()
+		b, err := rosmar.OpenBucket(rosmar.InMemoryURL, name, rosmar.CreateNew)
+		if err != nil {
+			ch <- "openerr"
+			return
+		}
+		if err := b.DefaultDataStore().SetRaw("k", 0, nil, []byte("v")); err != nil {
+			ch <- "seterr"
+			return
+		}
+		if err := b.CloseAndDelete(ctx); err != nil {
+			ch <- "closeerr"
+			return
+		}
+		ch <- "ok"
+	}()
+	other := "hang"
+	select {
+	case other = <-ch:
+	case <-time.After(3 * time.Second):
+	}
+	return fmt.Sprintf("r=ok activefeeds=%d other=%s", af, other)
 }
